@@ -21,7 +21,8 @@ Theorem c10_tick_transfer : forall c pr c' cb dl, tick c = TickOk pr c' cb dl ->
       content (p_out p) = map Some (from_k k L) ++ content (p_out p').
 Proof.
   intros c pr c' cb dl H. destruct (tick_moves _ _ _ _ _ H) as (L & HL & ->).
-  exists L. split; [reflexivity|]. split; [intros i j m Hin; eapply moves_right_port; eauto|].
+  exists L. split; [reflexivity|].
+  split; [intros i j m Hin; exact (proj2 (moves_right_port _ _ _ HL i j m Hin))|].
   destruct (moves_law _ _ _ HL) as (_ & _ & Hlaw). exact Hlaw.
 Qed.
 Print Assumptions c10_tick_transfer.
@@ -50,7 +51,8 @@ Print Assumptions c10_progress.
     only delays. *)
 Theorem c10_conservation_order : forall (h : list action) (c : conn),
   exists L : list lmove, deliv_log c h = dl_of L /\
-    (forall i j m, In (i, j, m) L -> exists p, nth_error (c_ports c) j = Some p /\ p_name p = m_dst m) /\
+    (forall i j m, In (i, j, m) L ->
+       (i < length (c_ports c))%nat /\ exists p, nth_error (c_ports c) j = Some p /\ p_name p = m_dst m) /\
     forall k p, nth_error (c_ports c) k = Some p -> exists p', nth_error (c_ports (final c h)) k = Some p' /\
       p_name p' = p_name p /\
       content (p_out p) ++ log (sent_k k) c h = map Some (from_k k L) ++ content (p_out p') /\
@@ -107,3 +109,41 @@ Example c10_nonvacuous :
   deliv_log (new_conn [(1, 4); (1, 1); (1, 1)]%Z) h = [(1, m1); (1, m2); (2, m3)]%nat /\
   exists pr c' cb dl, tick (new_conn [(1, 1); (1, 1)]%Z) = TickOk pr c' cb dl.
 Proof. split; [vm_compute; reflexivity|]. vm_compute. eauto. Qed.
+
+(** Link between the evaluators of the check.  If the observed run agrees with the model
+    ([check_case]: every send outcome, retrieved message, per-tick delivery log, port
+    snapshot and cursor), and the run's messages carry pairwise distinct IDs ([wf_case],
+    guaranteed by the generators), then the observed trace satisfies the property
+    predicate [holds_on]: right port, no duplicate delivery, per-source and
+    per-destination prefix order, conservation counts at the closing snapshot.
+    The quiescence clause of [holds_on] (engine runs that went on until the event queue
+    was exhausted: no outgoing head left whose destination has room) does not follow
+    from agreement with the connection model — its schedules are arbitrary — but from
+    [final_clean]: the model's final state has no deliverable head, which is exactly
+    what C09 proves of an exhausted queue ([c09_quiescent_clean]).  For runs that are
+    not marked quiescent [final_clean] is [true] by definition. *)
+From Akita Require Import C10.Exec C10.Link.
+Theorem c10_model_agreement_implies_property : forall c,
+  wf_case c = true -> check_case c = true -> final_clean c = true -> holds_on c = true.
+Proof. exact check_implies_holds. Qed.
+Print Assumptions c10_model_agreement_implies_property.
+
+Corollary c10_model_agreement_implies_property_nonquiescent : forall c,
+  wf_case c = true -> c_quiescent c = false -> check_case c = true -> holds_on c = true.
+Proof.
+  intros c Hw Hq Hc. apply check_implies_holds; [exact Hw|exact Hc|].
+  unfold final_clean. rewrite Hq. reflexivity.
+Qed.
+Print Assumptions c10_model_agreement_implies_property_nonquiescent.
+
+(** Non-vacuity of the link: a run marked quiescent (send, tick, second send blocked by
+    the full receiver, tick with no progress, retrieval, tick, retrieval, snapshot) whose
+    observations are the model's: all three hypotheses and the conclusion evaluate to true. *)
+Example c10_link_nonvacuous :
+  let caps := [(1, 2); (1, 1)]%Z in
+  let m1 := mk_msg 1 1 2 10 in let m2 := mk_msg 2 1 2 20 in
+  let hh := [ASend 0 m1; ASend 0 m2; ATick; ATick; ARetrieve 1; ATick; ARetrieve 1; ASnap] in
+  let c := mk_case caps true (combine hh (run (new_conn caps) hh)) in
+  wf_case c = true /\ check_case c = true /\ final_clean c = true /\ holds_on c = true /\
+  deliv_of (c_trace c) = [(1%nat, m1); (1%nat, m2)].
+Proof. vm_compute. repeat split. Qed.
